@@ -30,6 +30,15 @@ Tie to /repo's current tree:
      changed.  Properties_C14b.v (VM/StackBoundParam.v) states what a check hoisted behind the
      push loop does to the model: it differs exactly on the window sp < size <= sp + k, by storing
      to slots size..sp+k — the sizes this sweep covers.
+ (e') peak probes: a push can only be seen at the limit where it sets a new running maximum of sp (at
+     any smaller size an earlier instruction reports first).  Generated programs put one construct at
+     the unique deepest point: typed handler entry (CLEAR_STACK; INT; PUSH_EXCEPT) after a fault with
+     one temporary — single/several clauses, catch-all, unmatched clauses, nested handlers, rethrow
+     chains, unhandled, handlers of nested functions — every literal class, nil, globals, captured
+     variables; and per pushing opcode the smallest /repo/sample programs in which it sets a new
+     maximum (all samples are traced once).  They go through (c) and through the guard-slot sweep of
+     (e).  The evidence lists opcode-at-the-peak x programs, opcode-reporting-the-limit x programs and
+     the pushing opcodes that never reported the limit.
  (f) the command-line tool (main.c -> nev_compile_*_and_exec -> vm_new): probe programs whose stack
      demand and heap boundary are measured through the API are run by the tree's `never` with
      -s S -m M | -m M -s S | -s S | -m M | nothing (and -f first / -sN attached / -e text), S and M
@@ -223,10 +232,13 @@ def classify(r):
         return r["status"]
     if r["status"] == "exit 0" and r["ret"] is not None:
         return "complete"
-    if r["status"] == "exit 1" and e == b"stack too large\n":
-        return "stack-limit"
-    if r["status"] == "exit 1" and e == b"out of memory\n":
-        return "oom"
+    # the diagnostic is the LAST thing on stderr; text before it (the message of a language exception raised earlier)
+    # must be what the full run prints too: limit_text_ok
+    for kind, msg in (("stack-limit", b"stack too large\n"), ("oom", b"out of memory\n")):
+        if r["status"] == "exit 1" and e.endswith(msg) and e.count(msg) == 1 and b"stack too large" not in e[:-len(msg)] \
+                and b"out of memory" not in e[:-len(msg)]:
+            r["err_before"] = e[:-len(msg)]
+            return kind
     if r["status"] == "exit 1" and b"stack too large" in e:
         return "stack-limit-dirty"
     if r["status"] == "exit 1" and b"out of memory" in e:
@@ -239,6 +251,11 @@ def norm_dump(out):
     if b"machine:\n" not in out:
         return out
     return re.sub(rb"\t(stack_size|mem_size): \d+\n", rb"\t\1: <configured>\n", out)
+
+
+def limit_text_ok(r, ref):
+    """stdout and stderr of a run stopped at a limit are what the full run printed up to there"""
+    return ref["out"].startswith(strip_machine_dump(r["out"])) and ref["err"].startswith(r.get("err_before", b""))
 
 
 def strip_machine_dump(out):
@@ -350,17 +367,15 @@ def cli_kind(rc, err):
         return "signal"
     if b"Assertion" in err:
         return "assert"
-    if rc == 1 and err == b"stack too large\n":
+    if rc == 1 and err.endswith(b"stack too large\n") and err.count(b"stack too large") == 1 and b"out of memory" not in err:
         return "stack-limit"
-    if rc == 1 and err == b"out of memory\n":
+    if rc == 1 and err.endswith(b"out of memory\n") and err.count(b"out of memory") == 1 and b"stack too large" not in err:
         return "oom"
     if b"stack too large" in err:
         return "stack-limit-dirty"
     if b"out of memory" in err:
         return "oom-dirty"
-    if err == b"":
-        return "complete"
-    return "other"
+    return "complete"
 
 
 def dump_sizes(out):
@@ -546,13 +561,13 @@ def cli_family(ctx, T, stats, nontrivial):
         if exp["kind"] == "complete":
             t, v = exp["result"].split(":")
             want_rc = int(v) & 0xFF if t == "1" else None           # OBJECT_INT: the status is the result
-            if norm_dump(out) != exp["out"] or (want_rc is not None and rc != want_rc):
+            if norm_dump(out) != exp["out"] or err != exp["err"] or (want_rc is not None and rc != want_rc):
                 ctx.violation("cli:%s:size-changes-result" % order,
                               "C14: `%s` fits its limits (%s) but prints/returns something else than the API run (status %s, expected %s)"
                               % (" ".join(shown), eff, rc, want_rc), rep)
                 continue
         else:
-            if rc == 0 or strip_machine_dump(out) != strip_machine_dump(exp["out"]):
+            if rc == 0 or strip_machine_dump(out) != strip_machine_dump(exp["out"]) or err != exp["err"]:
                 ctx.violation("cli:%s:limit-output" % order,
                               "C14: `%s`: the limit is reported but status/text differ from the API run (status %s)" % (" ".join(shown), rc), rep)
                 continue
@@ -856,6 +871,7 @@ def _run(ctx, T):
                 break
         sizes = [s for s in todo if s in got]
         res["sizes_run"] = list(sizes)
+        res["pred"] = pr["pred"]
         ref_out = ref["out"]
         completes = []
         fired = False
@@ -884,7 +900,8 @@ def _run(ctx, T):
                 continue
             if r["kind"] == "complete":
                 completes.append(s)
-                same = (r["out"] == ref_out and r["result"] == ref["result"] and r["ret"] == ref["ret"] and r["steps"] == ref["steps"])
+                same = (r["out"] == ref_out and r["err"] == ref["err"] and r["result"] == ref["result"] and r["ret"] == ref["ret"]
+                        and r["steps"] == ref["steps"])
                 if e[0] != "done":
                     res["events"].append(("violation", "stack-limit-missed:" + T.opname(e[3]).replace("BYTECODE_", "").lower(),
                                           "C14: %s needs %d stack slots but runs to completion with %d (no 'stack too large')" % (pid, D, s), rep))
@@ -903,7 +920,7 @@ def _run(ctx, T):
                     res["events"].append(("broken", "model-predicts-oob-but-limit-reported", rep))
                 elif r["steps"] != e[1] + 1 or r["last_op"] != e[3]:
                     res["events"].append(("broken", "limit-step", rep))
-                elif not ref_out.startswith(body):
+                elif not limit_text_ok(r, ref):
                     res["events"].append(("violation", "stack-limit-output",
                                           "C14: %s at stack size %d printed text that the full run does not print before the limit" % (pid, s), rep))
                 else:
@@ -998,7 +1015,7 @@ def _run(ctx, T):
                 else:
                     out["points"] += 1          # used more stack slots than there are heap cells, and completed
             elif r["kind"] == "oom" and not r["nilcell"] and r["heap"][0] == 0 and r["heap"][1] == r["heap"][2] - 1 \
-                    and ref["out"].startswith(r["out"]):
+                    and limit_text_ok(r, ref):
                 pass
             else:
                 out["events"].append(("violation", "grid2d:%s:%s" % (r["kind"], opn),
@@ -1056,13 +1073,19 @@ def _run(ctx, T):
                 continue
             front, back, first = r["rz"]
             if front or back:
+                # the guard slots tell that a store happened, not where: when the run went on, name the instruction the
+                # model expects to report the limit at this size
+                e = (res.get("pred") or {}).get(s_)
+                culprit = r["last_op"] if r["kind"] in ("stack-limit", "stack-limit-dirty") or not (e and e[0] in ("limit", "oob")) else e[3]
+                opn = T.opname(culprit).replace("BYTECODE_", "").lower()
+                rep["model"] = e
                 rep["slots_written_before_slot_0"], rep["slots_written_at_or_after_stack_size"], rep["first_slot_outside"] = front, back, first
                 rep["expected"] = "no store outside slots 0..%d; 'stack too large' + exit 1, or the reference result" % (s_ - 1)
                 out["events"].append(("violation", "stack-write-outside:" + opn,
                                       "C14: %s with stack size %d: %s stored to %d slot(s) outside the configured stack (first: slot %d) "
                                       "before the run ended as %s%s" % (
                                           "%s(%s)" % (opts.get("entry"), ", ".join(opts.get("args", []))) if opts else res["id"], s_,
-                                          T.opname(r["last_op"]), front + back, first if back else -1, r["kind"],
+                                          T.opname(culprit), front + back, first if back else -1, r["kind"],
                                           "" if r["kind"] != "complete" else " (model demand %d: must be 'stack too large')" % res["demand"]), rep))
                 continue
             if r["kind"] == "complete":
@@ -1072,7 +1095,7 @@ def _run(ctx, T):
                     out["events"].append(("violation", "stack-size-changes-result",
                                           "C14: %s gives a different result with stack size %d than with %d" % (res["id"], s_, STACK_BIG), rep))
             elif r["kind"] == "stack-limit":
-                if not ref["out"].startswith(strip_machine_dump(r["out"])):
+                if not limit_text_ok(r, ref):
                     out["events"].append(("violation", "stack-limit-output",
                                           "C14: %s at stack size %d printed text that the full run does not print before the limit" % (res["id"], s_), rep))
                 else:
@@ -1169,7 +1192,7 @@ def _run(ctx, T):
             elif r["kind"] == "oom":
                 res["oom"] += 1
                 free, used, size = r["heap"]
-                if not ref["out"].startswith(r["out"]):
+                if not limit_text_ok(r, ref):
                     res["events"].append(("violation", "heap:oom-output",
                                           "C14: %s at heap size %d printed text the full run does not print before 'out of memory'" % (pid, m), rep))
                 elif not (free == 0 and used == size - 1):
@@ -1286,7 +1309,8 @@ def _run(ctx, T):
         "the byte size of the four arrays vm_new allocated against the configured sizes.  entry functions with 0..10 parameters of type "
         "int/float/string/[string] (main and other entry names, seeded mixes): all of the above plus every stack size 0..peak+7 with %d guard "
         "slots on each side of the configured stack; non-trivial there = the limit is reported inside PUSH_PARAM for at least one size and no "
-        "guard slot changed.  command-line tool: one probe per role (demand near/over the default stack, heap-light, heap-heavy, heap over the "
+        "guard slot changed.  peak probes (generated per construct + the smallest samples per pushing opcode that set a new maximum of sp "
+        "there): same two sweeps; non-trivial = some size reports the limit and no guard slot changed; see opcode_at_the_peak_x_programs.  command-line tool: one probe per role (demand near/over the default stack, heap-light, heap-heavy, heap over the "
         "default, entry arguments, exit status) chosen by MEASURING demand and heap boundary through the API; sizes {D-1, D, D+7, Hlo, Hhi, "
         "3/4 and 4x default stack} x {Hlo, Hhi, Hhi+50, D-1, D, 2x default heap, 3/4 default stack} and absent, both option orders + 2 seeded "
         "spellings; non-trivial = distinct (probe, spelling, expected outcome) that agreed with the API run"
